@@ -28,7 +28,7 @@ def run(pid, tier, seed):
     for k in range(3 if q else 8):
         tp = os.path.join(tdir, "%s-%s-make-%d-%d.ndjson" % (pid, tier, seed, k))
         vlib.record_trace(mk, ["record", "--seed", seed * 50 + k, "--runs", 1, "--len", 220 if q else 600, "--stable", 1,
-                               "--noise", [3, 30, 0][k % 3]], tp, timeout=240 if q else 900)
+                               "--noise", [3, 30, 0][k % 3], "--edge", 1 if k % 3 == 2 else 0], tp, timeout=240 if q else 900)
         jobs.append(("IprMakeTrace", tp, (), lambda ev: ev.get("op") == "reset", None))
     if not q:
         mka = vlib.build_harness("make", ["make.cxx"], cfg="asan")
@@ -38,7 +38,7 @@ def run(pid, tier, seed):
     for k in range(2 if q else 4):
         tp = os.path.join(tdir, "%s-%s-unify-%d-%d.ndjson" % (pid, tier, seed, k))
         vlib.record_trace(un, ["record", "--seed", seed * 70 + k, "--runs", 4 if q else 10, "--len", 150 if q else 300,
-                               "--noise", 60 if k % 2 else 0], tp, timeout=1800)
+                               "--noise", 60 if k % 2 else 0, "--edge", 0 if k % 2 else 1], tp, timeout=300 if q else 900)
         jobs.append(("IprUnifyTrace", tp, ["UInvariant"], lambda ev: ev.get("op") == "init", None))
     # scopes: after every declaration the whole scope is re-observed (name, type, master, declaration-set, position of
     # every earlier declaration): an earlier declaration may gain companions in its set, nothing else may change
@@ -46,7 +46,7 @@ def run(pid, tier, seed):
     for k in range(2 if q else 6):
         tp = os.path.join(tdir, "%s-%s-scopes-%d-%d.ndjson" % (pid, tier, seed, k))
         vlib.record_trace(sc, ["record", "--seed", seed * 90 + k, "--runs", 3 if q else 8, "--len", 100 if q else 250,
-                               "--names", 5, "--types", 3], tp, timeout=1800)
+                               "--names", 5, "--types", 3], tp, timeout=300 if q else 900)
         jobs.append(("IprScopesTrace", tp, ["ScInvariant"], lambda ev: ev.get("k") == "reset", {"NNames": 5, "NT": 3, "WithSpec": "TRUE"}))
     tp = os.path.join(tdir, "%s-%s-strings-%d.ndjson" % (pid, tier, seed))
     vlib.record_trace(stx, ["record", "--seed", seed + 3, "--n", 600 if q else 3000], tp, timeout=1800)
